@@ -1074,6 +1074,13 @@ class Engine:
                         dict(self.load(st, *self.parse_place(st, m.group(2), frame)))
                     if ("nbv",) in v:        # symbolic slice whose length is a 64-bit term
                         return {(): v[("nbv",)]}
+                    r0 = v.get(())
+                    if isinstance(r0, Ref) and len(r0.loc) == 2 and r0.loc[1] == "deref" and isinstance(r0.loc[0], tuple) \
+                            and r0.loc[0][0] == "o":
+                        # raw pointer to the target of an opaque slice reference: find the reference's length
+                        for k, x in st.mem.items():
+                            if isinstance(x, Opq) and x.id == r0.loc[0][1] and (k + ("nbv",)) in st.mem:
+                                return {(): st.mem[k + ("nbv",)]}
                     if ("n",) in v:          # symbolic slice (start, len) installed by a spec model
                         return {(): z3.Int2BV(v[("n",)], 64)}
                 except ValueError:
@@ -1636,6 +1643,31 @@ class Engine:
                     st.frames[-1]["wrap"] = "Some" if m.group(1) == "map" else None
                     return r
                 return None
+        # 5c. Result::map_or with a known closure: Err gives the default, Ok(x) runs the closure
+        m = re.match(r"^(?:std::result::|core::result::)?Result::<.*>::map_or::<", callee.strip())
+        if m and len(argvals) == 3 and getattr(self, "inline_option_closures", True):
+            clv = argvals[2].get(("closure",))
+            rv = argvals[0]
+            if isinstance(clv, Closure) and clv.loc in self.prog.closure_by_loc and len(st.frames) < self.max_depth + 4:
+                d = self._disc_of(st, rv, "Result<>")
+                body = self.prog.closure_by_loc[clv.loc].parse()
+                if self.feasible(st.cond, d == 1):
+                    s2 = st.fork()
+                    s2.cond.append(d == 1)
+                    if dest_loc is not None:
+                        self.store(s2, dest_loc, dict(argvals[1]))
+                    if ret_bb is not None:
+                        self.work.append((s2, ret_bb))
+                if self.feasible(st.cond, d == 0):
+                    st.cond.append(d == 0)
+                    payload = {k[2:]: v for k, v in rv.items() if k[:2] == (("v", "Ok"), ("f", 0))}
+                    if not payload:
+                        payload = {(): self._payload(st, rv, ("v", "Ok"), "map_or")}
+                    tup = {(("f", 0),) + k: v for k, v in payload.items()}
+                    return self.inline_call(st, frame, body, dest_loc, ret_bb, [argvals[2], tup],
+                                            closure_env=(argvals[2], None),
+                                            evname="closure@" + clv.loc.split(":")[0] + ":" + clv.loc.split(":")[1])
+                return None
         # 6. inlining of crate functions
         if any(p.search(plain) or p.search(callee) for p in self.inline):
             body = self.prog.resolve_callee(callee)
@@ -1924,6 +1956,10 @@ class Engine:
                 st.cond.append(z3.And(y != 0, z3.BVAddNoOverflow(x, add, False)))
                 return {(): x + add}
         m = re.match(r"^(?:std::cmp::|core::cmp::)?(min|max)::<(.*)>$", c)
+        if not m:
+            mo = re.match(r"^<([ui](?:8|16|32|64|128|size)) as (?:std::cmp::|core::cmp::)?Ord>::(min|max)$", c)
+            if mo:
+                m = re.match(r"^(min|max)::<(.*)>$", "%s::<%s>" % (mo.group(2), mo.group(1)))
         if m and len(argvals) == 2:
             x, y = argvals
             lx, ly = x.get(()), y.get(())
@@ -2035,7 +2071,7 @@ class Engine:
         return r
 
 
-UNOPS = {"Not", "Neg", "PtrMetadata"}
+UNOPS = {"Not", "Neg"}
 BINOPS = {"Eq", "Ne", "Lt", "Le", "Gt", "Ge", "Add", "Sub", "Mul", "Div", "Rem", "BitAnd", "BitOr",
           "BitXor", "Shl", "Shr", "AddWithOverflow", "SubWithOverflow", "MulWithOverflow", "Offset",
           "Cmp", "AddUnchecked", "SubUnchecked", "MulUnchecked", "ShlUnchecked", "ShrUnchecked"}
